@@ -86,14 +86,16 @@ def build(ast, cat, rng, stats, force=None, prefer=None):
         inp = sv.leaf_input(leaf)[0]
         typed = sv.VCLS[fmt](inp) if info["dynamic"] else inp
         plain = _plain_of(leaf) if n >= 1 else None
-        if plain is not None and fmt == "F8" and n == 1 and ast[1] in KNOWN_F4_BEFORE_F8:
+        if plain is not None and fmt == "F8" and n >= 1 and ast[1] in KNOWN_F4_BEFORE_F8:
             import struct
-            try:
-                exact = struct.unpack(">f", struct.pack(">f", leaf[1][0]))[0] == leaf[1][0]
-            except OverflowError:
-                exact = True      # outside the binary32 range: F4 cannot be chosen
-            if not exact:
-                _RISKY_PLAIN_FLOATS.add(struct.pack(">d", leaf[1][0]))
+            # (a plain list of floats is typed as a whole by the same rule: F4 when every element lies in its range)
+            for x in leaf[1]:
+                try:
+                    exact = struct.unpack(">f", struct.pack(">f", x))[0] == x
+                except OverflowError:
+                    exact = True      # outside the binary32 range: F4 cannot be chosen
+                if not exact:
+                    _RISKY_PLAIN_FLOATS.add(struct.pack(">d", x))
         if info["dynamic"] and fmt == "B" and any(f in ("A", "J") for f in fmts):
             plain = None  # plain bytes are ambiguous for an item that allows both text and binary (text wins by design)
         if info["dynamic"] and n > 1 and "L" in fmts and fmt in ("F4", "F8"):
@@ -132,7 +134,7 @@ def _f4_lenient(a, b):
 # Known finding (known_findings.json, C03 plain-float-sent-as-F4-although-F8-is-allowed): the data items whose allowed types
 # list F4 before F8 on the tree the finding was recorded on. Pinned here: an item that starts to behave like this later is new.
 KNOWN_F4_BEFORE_F8 = frozenset({"ATTRDATA", "CEPVAL", "DVVAL", "LIMITMAX", "LIMITMIN", "LOWERDB", "SV", "UPPERDB", "V", "XDIES", "YDIES"})
-_RISKY_PLAIN_FLOATS: set = set()      # bit patterns of the plain floats built for those items (single element, not exact in binary32)
+_RISKY_PLAIN_FLOATS: set = set()      # bit patterns of the plain floats built for those items (not exact in binary32)
 
 
 def _differing_leaves(got, expected):
